@@ -201,7 +201,15 @@ def judge(family, case, rec):
     mean, cov = case["mean"], case["cov"]
     p = len(mean)
     try:
-        dist = sempler.NormalDistribution(mean, cov)
+        if case.get("k", 0) % 3 == 1:
+            # the rarely used third constructor argument ('warn' only warns, also for a covariance that is not numerically PD)
+            import warnings as _w
+            with _w.catch_warnings():
+                _w.simplefilter("ignore")
+                dist = sempler.NormalDistribution(mean, cov, check_valid="warn") if case["k"] % 2 else sempler.NormalDistribution(mean, cov, "warn")
+            rec.count("ctor:check_valid=warn")
+        else:
+            dist = sempler.NormalDistribution(mean, cov)
     except Exception as e:
         rec.exception_violation("C05:ctor-exception", family, case, "NormalDistribution(mean, covariance) raised", e)
         return
